@@ -75,7 +75,7 @@ BulkOk(e) ==
        [] OTHER -> FALSE
 
 Init == tr \in 1..Len(Traces) /\ l = 1
-Next == /\ l <= Len(Ev) /\ BulkOk(Ev[l]) /\ l' = l + 1 /\ UNCHANGED tr
+Next == /\ l <= Len(Ev) /\ l' = l + 1 /\ UNCHANGED tr /\ BulkOk(Ev[l])
 Spec == Init /\ [][Next]_vars
 Done == l > Len(Ev)
 Report ==
